@@ -21,7 +21,10 @@ PROP = dict(
     assumptions=["the per-key frame theorems are stated on `dispatch` (the state's `next` + behaviour bookkeeping), i.e. BEFORE "
                  "the auto-commit tail of process_keyevent; the tail only removes a prefix (tail_com / bounded_after_key)",
                  "bounded_after_key assumes that the conversion answer tiles the buffer (TilesLen: that is C03's theorem "
-                 "about the real engines); without it the loop can run out of intervals",
+                 "about the real engines); without it the loop can run out of intervals; the *_at versions need it only at the "
+                 "state the auto-commit converts (TilingAt), and C18.bounded_after_key_linked / C18.buffer_bounded_along (audited "
+                 "by check C18; this module cannot import C01, whose proofs import it) have no tiling premise: C01's EnvOK and "
+                 "reachable-state invariant instead",
                  "remove_after_cursor / replace at the end of the buffer and remove_front(n > len) hit an assert: the "
                  "editor guards them (delete_key, bounded_after_key show the guards)"],
 )
@@ -38,12 +41,18 @@ MANIFEST = dict(
          "is inserted exactly at the cursor, cursor + 1, nothing else moves), and the bound: tryAutoCommit_bound (the auto-commit "
          "loop re-establishes len <= auto_commit_threshold, removing only a prefix), bounded_after_absorb (every absorbed key that "
          "ends in Entering, from any state), bounded_after_key / bounded_after_key_syllable (every key handled in Entering / "
-         "EnteringSyllable that answers Absorb or Commit) under the hypothesis that the conversion tiles the buffer. Tie: per-step correspondence "
+         "EnteringSyllable that answers Absorb or Commit) under the hypothesis that the conversion tiles the buffer; linked (round 2): "
+         "tryAutoCommit_bound_at / tryAutoCommit_total_at / bounded_after_key_at take the hypothesis only at the converted state "
+         "(TilingAt), which Proofs/EditorLink.lean derives from C01's invariant (tilingAt_of_shInv, dispatch_shInv: the state a "
+         "key's state-machine part leaves satisfies it in all four states), giving Link.bounded_after_key_linked / "
+         "tryAutoCommit_total_linked and, in Props/C18.lean, bounded_after_key_linked and buffer_bounded_along (len <= threshold "
+         "in Entering is an invariant of every key history) with no tiling premise. Tie: per-step correspondence "
          "of both models with the real code from the implementation's own pre-state, plus a shadow list/cursor oracle "
          "written from the property text evaluated on every step of the real editor.",
     note="Trusted: Lean kernel (axioms propext, Classical.choice, Quot.sound only), the harness and the compiled model "
          "driver, the read-only snapshot hook and the guarded forwarding probe for the crate-private CompositionEditor. "
-         "bounded_after_key is conditional on the conversion answer tiling the buffer (C03).",
+         "bounded_after_key is conditional on the conversion answer tiling the buffer (C03); the linked form "
+         "(C18.bounded_after_key_linked, via Proofs/EditorLink.lean) replaces that by C01's EnvOK + reachable-state invariant.",
     technique="Lean 4 proof (invariants by induction over operation lists and editor histories, case analysis over the "
               "modelled key-event state machine, list frame equations) over executable models; sampled step-wise "
               "model/implementation correspondence; shadow-list oracle",
